@@ -22,6 +22,7 @@ func init() {
 		httpIDLeg(r)
 		repoTestsLeg(r, "C01")
 		freeRunLeg(r, "C01", map[string]int{"quick": 300, "thorough": 3000}[r.Tier])
+		transcriptLeg(r, "C01", map[string]int{"quick": 300, "thorough": 3000}[r.Tier])
 		if r.Tier == "thorough" {
 			apalacheLeg(r)
 		}
